@@ -23,6 +23,8 @@ func main() {
 		if runDefects() > 0 {
 			os.Exit(1)
 		}
+	case "facts":
+		writeFacts()
 	case "gen":
 		if len(os.Args) < 5 {
 			fmt.Fprintln(os.Stderr, "usage: harness gen <family> <seed> <n>")
